@@ -46,7 +46,66 @@ func isCmp(op token.Token) bool {
 	return op == token.GTR || op == token.LSS || op == token.GEQ || op == token.LEQ
 }
 
+// poolFacts prints, for every function of encode.go that touches encbufPool, how often it calls
+// Get and Put and how many of the Puts are deferred: `pool\t<func>\t<gets>\t<puts>\t<deferred puts>`.
+// The buffer of EncodeToReader belongs to the returned reader until EOF, so that function must
+// not Put at all and the reader's Read must Put (not deferred: only on its EOF path).
+func poolFacts() {
+	file := "src/storage/rlp/encode.go"
+	fset := token.NewFileSet()
+	f, err := parser.ParseFile(fset, file, nil, 0)
+	if err != nil {
+		fmt.Fprintln(os.Stderr, err)
+		os.Exit(1)
+	}
+	isPool := func(c *ast.CallExpr, name string) bool {
+		se, ok := c.Fun.(*ast.SelectorExpr)
+		if !ok || se.Sel.Name != name {
+			return false
+		}
+		id, ok := se.X.(*ast.Ident)
+		return ok && id.Name == "encbufPool"
+	}
+	for _, d := range f.Decls {
+		fd, ok := d.(*ast.FuncDecl)
+		if !ok || fd.Body == nil {
+			continue
+		}
+		name := fd.Name.Name
+		if fd.Recv != nil && len(fd.Recv.List) == 1 {
+			t := fd.Recv.List[0].Type
+			if st, ok := t.(*ast.StarExpr); ok {
+				t = st.X
+			}
+			if id, ok := t.(*ast.Ident); ok {
+				name = id.Name + "." + name
+			}
+		}
+		gets, puts, dputs := 0, 0, 0
+		ast.Inspect(fd.Body, func(n ast.Node) bool {
+			switch x := n.(type) {
+			case *ast.DeferStmt:
+				if isPool(x.Call, "Put") {
+					dputs++
+				}
+			case *ast.CallExpr:
+				if isPool(x, "Get") {
+					gets++
+				}
+				if isPool(x, "Put") {
+					puts++
+				}
+			}
+			return true
+		})
+		if gets+puts > 0 {
+			fmt.Printf("pool\t%s\t%d\t%d\t%d\n", name, gets, puts, dputs)
+		}
+	}
+}
+
 func main() {
+	poolFacts()
 	want := map[string]map[string]bool{
 		"src/storage/rlp/decode.go": {"Stream.Kind": true, "Stream.willRead": true, "Stream.readKind": true, "Stream.readUint": true},
 		"src/storage/rlp/raw.go":    {"readKind": true, "readSize": true},
